@@ -164,6 +164,18 @@ Definition invite_admissible (i : inv_input) : bool :=
   | None => false
   end.
 
+Definition invite_v3_admissible (x : iv3_extra) (i : inv_input) : bool :=
+  version_known (iv_version i) &&
+  bytes_eqb (v3_proto_type x) m_room_member &&
+  match v3_proto_membership x with Some m => bytes_eqb m s_invite | None => false end &&
+  bytes_eqb (v3_proto_room x) (iv_req_room i) &&
+  match v3_sender_id x with Some _ => true | None => false end &&
+  match iv_known_room i with
+  | Some true => match iv_membership i with Some cur => negb (bytes_eqb cur s_join) | None => false end
+  | Some false => true
+  | None => false
+  end.
+
 (* ---------- perform_join ---------- *)
 Definition is_known_create (e : pj_auth_event) : bool :=
   bytes_eqb (pa_type e) m_room_create &&
